@@ -32,7 +32,7 @@ theorem allocData_ok {st : State} (h : SInv st) (c : Var) (hd : (st.nodes c).dat
     (ha : (st.nodes c).alive = true) (hv : c.valid = true) :
     SInv (allocData st c) ∧ Trace st (allocData st c) := by
   constructor
-  · refine node_alloc h c { st.nodes c with data := some st.next } 0 rfl rfl rfl rfl rfl rfl ha ha hv
+  · refine node_alloc h c { st.nodes c with data := some st.next } 0 rfl rfl rfl rfl rfl rfl rfl ha ha hv
       (h.slots_nodup c) (h.slots_in c) (h.blocks_nodup c) ?_ ?_ ?_ ?_
     · intro d hd' hmem
       simp only [Option.some.injEq] at hd'
@@ -58,50 +58,80 @@ theorem allocData_ok {st : State} (h : SInv st) (c : Var) (hd : (st.nodes c).dat
         · exact Or.inr hx.symm
   · exact Trace.trans (trace_alloc st 0) (Trace.of_same rfl rfl rfl rfl)
 
-theorem newSlots_mem (k : Kind) (b : Nat) (it : Item) : it ∈ newSlots k b ↔ it.b = b ∧ it.i < 4 := by
+theorem newSlots_mem (n : Nat) (k : Kind) (b : Nat) (it : Item) (hn : 1 ≤ n) :
+    it ∈ newSlots n k b ↔ it.b = b ∧ it.i < n := by
   cases it with
   | mk b' i =>
     unfold newSlots
     by_cases hk : k.hashOrder = true
-    · simp only [hk, if_true, List.mem_cons, Item.mk.injEq, List.mem_nil_iff, or_false]
+    · simp only [hk, if_true, List.mem_cons, Item.mk.injEq, List.mem_map, List.mem_range]
       constructor
-      · rintro (⟨rfl, rfl⟩ | ⟨rfl, rfl⟩ | ⟨rfl, rfl⟩ | ⟨rfl, rfl⟩) <;> simp
+      · rintro (⟨rfl, rfl⟩ | ⟨j, hj, rfl, rfl⟩)
+        · exact ⟨rfl, by omega⟩
+        · exact ⟨rfl, by omega⟩
       · rintro ⟨rfl, hi⟩
-        have : i = 0 ∨ i = 1 ∨ i = 2 ∨ i = 3 := by omega
-        rcases this with rfl | rfl | rfl | rfl <;> simp
-    · simp only [hk, Bool.false_eq_true, if_false, List.mem_cons, Item.mk.injEq, List.mem_nil_iff, or_false]
+        by_cases h0 : i = 0
+        · exact Or.inl ⟨rfl, h0⟩
+        · exact Or.inr ⟨n - 1 - i, by omega, rfl, by omega⟩
+    · simp only [hk, Bool.false_eq_true, if_false, Item.mk.injEq, List.mem_map, List.mem_range]
       constructor
-      · rintro (⟨rfl, rfl⟩ | ⟨rfl, rfl⟩ | ⟨rfl, rfl⟩ | ⟨rfl, rfl⟩) <;> simp
+      · rintro ⟨j, hj, rfl, rfl⟩
+        exact ⟨rfl, by omega⟩
       · rintro ⟨rfl, hi⟩
-        have : i = 0 ∨ i = 1 ∨ i = 2 ∨ i = 3 := by omega
-        rcases this with rfl | rfl | rfl | rfl <;> simp
+        exact ⟨n - 1 - i, by omega, rfl, by omega⟩
 
-theorem newSlots_nodup (k : Kind) (b : Nat) : (newSlots k b).Nodup := by
+theorem newSlots_ne_nil (n : Nat) (k : Kind) (b : Nat) (hn : 1 ≤ n) : newSlots n k b ≠ [] := by
+  intro he
+  have := (newSlots_mem n k b ⟨b, 0⟩ hn).mpr ⟨rfl, (show 0 < n by omega)⟩
+  rw [he] at this; cases this
+
+theorem newSlots_nodup (n : Nat) (k : Kind) (b : Nat) : (newSlots n k b).Nodup := by
+  have hmap : ∀ m, ((List.range m).map fun j => (⟨b, n - 1 - j⟩ : Item)).Nodup ∨ n < m := by
+    intro m
+    by_cases hm : n < m
+    · exact Or.inr hm
+    · left
+      rw [List.nodup_iff_pairwise_ne, List.pairwise_map]
+      refine List.Pairwise.imp_of_mem ?_ (List.pairwise_lt_range (n := m))
+      intro x y hx hy hlt e
+      simp only [List.mem_range] at hx hy
+      simp only [Item.mk.injEq, true_and] at e
+      omega
   unfold newSlots
-  by_cases hk : k.hashOrder = true <;> simp [hk]
+  by_cases hk : k.hashOrder = true
+  · simp only [hk, if_true, List.nodup_cons, List.mem_map, List.mem_range, Item.mk.injEq, true_and, not_exists,
+      not_and]
+    refine ⟨fun j hj => by omega, ?_⟩
+    rcases hmap (n - 1) with h | h
+    · exact h
+    · omega
+  · simp only [hk, Bool.false_eq_true, if_false]
+    rcases hmap n with h | h
+    · exact h
+    · omega
 
 theorem allocBlock_ok {st : State} (h : SInv st) (c : Var) (hf : (st.nodes c).free = [])
     (ha : (st.nodes c).alive = true) (hv : c.valid = true) :
     SInv (allocBlock st c) ∧ Trace st (allocBlock st c) := by
   have hlt : ∀ x, x ∈ (st.nodes c).blocks → x < st.next := fun x hx => h.owns_lt (o := .node c) (Or.inl hx)
-  have hitems : ∀ it, it ∈ (st.nodes c).items → it.b ∈ (st.nodes c).blocks ∧ it.i < 4 :=
+  have hitems : ∀ it, it ∈ (st.nodes c).items → it.b ∈ (st.nodes c).blocks ∧ it.i < st.per.f c.k :=
     fun it hi => h.slots_in c it (List.mem_append_left _ hi)
   constructor
-  · refine node_alloc h c { st.nodes c with free := newSlots c.k st.next, blocks := st.next :: (st.nodes c).blocks } 4
-      rfl rfl rfl rfl rfl rfl ha ha hv ?_ ?_ ?_ ?_ ?_ ?_ ?_
+  · refine node_alloc h c { st.nodes c with free := newSlots (st.per.f c.k) c.k st.next, blocks := st.next :: (st.nodes c).blocks }
+      (st.per.f c.k) rfl rfl rfl rfl rfl rfl rfl ha ha hv ?_ ?_ ?_ ?_ ?_ ?_ ?_
     · have h0 := h.slots_nodup c
       rw [hf, List.append_nil] at h0
-      refine List.nodup_append.mpr ⟨h0, newSlots_nodup _ _, ?_⟩
+      refine List.nodup_append.mpr ⟨h0, newSlots_nodup _ _ _, ?_⟩
       intro a ha' b hb' hab
       subst hab
-      have := (newSlots_mem _ _ _).mp hb'
+      have := (newSlots_mem _ _ _ _ (st.per.pos c.k)).mp hb'
       have h2 := hlt _ (hitems a ha').1
       omega
     · intro it hi
       simp only [List.mem_append] at hi
       rcases hi with hi | hi
       · exact ⟨List.mem_cons_of_mem _ (hitems it hi).1, (hitems it hi).2⟩
-      · have := (newSlots_mem _ _ _).mp hi
+      · have := (newSlots_mem _ _ _ _ (st.per.pos c.k)).mp hi
         exact ⟨by simp [this.1], this.2⟩
     · refine List.nodup_cons.mpr ⟨fun hm => Nat.lt_irrefl _ (hlt _ hm), h.blocks_nodup c⟩
     · intro d hd hm
@@ -131,7 +161,7 @@ theorem allocBlock_ok {st : State} (h : SInv st) (c : Var) (hf : (st.nodes c).fr
         · exact Or.inl (Or.inr hx)
         · exact Or.inr hx
         · exact Or.inl (Or.inl hx)
-  · exact Trace.trans (trace_alloc st 4) (Trace.of_same rfl rfl rfl rfl)
+  · exact Trace.trans (trace_alloc st (st.per.f c.k)) (Trace.of_same rfl rfl rfl rfl)
 
 theorem useSlot_ok {st : State} (h : SInv st) (c : Var) (pos : Nat) (it : Item) (rest : List Item)
     (srcs : List (Nat × Option Loc × Option Nat))
@@ -167,11 +197,12 @@ theorem useSlot_ok {st : State} (h : SInv st) (c : Var) (pos : Nat) (it : Item) 
     rw [List.pairwise_map]
     exact this.imp fun hab he => hab (loc_inj he).2
   constructor
-  · refine node_local h c (insertAt (st.nodes c).items pos it) rest ?_ ?_ ?_ ?_ ?_ ?_ ?_ ?_ ?_
+  · refine node_local h c (insertAt (st.nodes c).items pos it) rest ?_ ?_ ?_ ?_ ?_ ?_ ?_ ?_ ?_ ?_
     · simp only [useSlot, setNode_nodes, ctorList_nodes]
     · simp only [useSlot, setNode_arrs, ctorList_arrs]
     · simp only [useSlot, setNode_blk, ctorList_blk]
     · simp only [useSlot, setNode_next, ctorList_next]
+    · simp only [useSlot, setNode_per, ctorList_per]
     · have hperm : (insertAt (st.nodes c).items pos it ++ rest).Perm ((st.nodes c).items ++ it :: rest) := by
         refine ((insertAt_perm _ pos it).append_right rest).trans ?_
         exact (List.perm_middle (l₁ := (st.nodes c).items) (a := it) (l₂ := rest)).symm
@@ -287,8 +318,7 @@ theorem insertNew_ok {st : State} (h : SInv st) (c : Var) (pos : Nat) (srcs : Li
       refine ⟨i2, t2, rfl, ?_⟩
       simp only [allocBlock, setNode_get]
       intro he
-      have := (newSlots_mem c.k st1.next ⟨st1.next, 0⟩).mpr ⟨rfl, Nat.zero_lt_succ 3⟩
-      rw [he] at this; cases this
+      exact newSlots_ne_nil _ _ _ (st1.per.pos c.k) he
     · rw [if_neg hc]
       refine ⟨h1, Trace.refl st1, rfl, ?_⟩
       intro he; rw [he] at hc; exact hc rfl
